@@ -98,6 +98,13 @@ def _gen_c04(rng, max_stages):
     return docs, [True] * n
 
 
+def _gen_c15(rng, max_stages):
+    g = S.Gen(rng, keys=("a", "b", "c"), atoms=(1, 2, 3, "x"), tags=("force", "weak", "del", "merge"),
+              max_depth=rng.choice([2, 3, 4]), max_width=3, p_tag=0.35, p_empty=0.08)
+    n = rng.randint(2, max_stages)
+    return [_strip_below_lists(g.doc()) for _ in range(n)], [True] * n
+
+
 def _strip_clear(sd):
     sd = dict(sd)
     sd["ch"] = [[k, _strip_clear(c)] for k, c in sd["ch"] if c["k"] != "clear" and not (c["k"] == "scalar" and c["del"] == "T" and c["v"] == ["n", ""])]
@@ -157,6 +164,35 @@ BUILDER = {
                 "child keys equal to ancestor keys included; B: seeded random 2-4 stage histories (depth<=4, 3 keys) over the same "
                 "vocabulary. non-trivial = the newer documents contain a deleting node (!del, list, !clear); distinct by content",
     },
+    "C05": {
+        "invariants": ["Inv_C05_Wrap", "Inv_C05_Sibling", "Inv_C05_Frame"],
+        "rel": "c05",
+        "exh": {"quick": [("C04_Docs3", 2, 2, "C04_Range3")],
+                "thorough": [("C04_Docs3", 2, 3, "C04_Range3"), ("C04_Docs", 2, 2, "C04_Range")]},
+        "mutations": [{"switch": "AbsLookup", "docs": "C04_Docs3", "range": "C04_Range3", "stages": (2, 2), "expect": ["Inv_C05_Wrap"]},
+                      {"mutation": "PruneAlways", "docs": "C04_Docs3", "range": "C04_Range3", "stages": (2, 2), "expect": ["Inv_C05_Frame"]}],
+        "gen": _gen_c04, "random": {"quick": 700, "thorough": 12000}, "max_stages": 4,
+        "nontrivial": _c04_nontrivial,
+        "rule": "A: every 2(3)-stage history of the C04 universes, each replayed as written AND wrapped under the key chains a, b, a.a, "
+                "a.b (same key set as the documents) AND with a sibling subtree under a fresh root key at every stage, outcomes related; "
+                "B: seeded random histories (all merge-control tags) with a random wrapping chain of length 1-4 and a random sibling. "
+                "non-trivial = newer documents contain a deleting node; distinct by content",
+    },
+    "C15": {
+        "invariants": ["Inv_C15"],
+        "rel": "c15",
+        "exh": {"quick": [("C15_Docs3", 2, 2)],
+                "thorough": [("C15_Docs3", 2, 3), ("C15_Docs", 2, 2, "C15_Range")]},
+        "mutations": [{"switch": "DeepWrapRefills", "docs": "C15_DocsM", "stages": (2, 2), "expect": ["Inv_C15"]},
+                      {"mutation": "PruneAlways", "docs": "C15_Docs3", "stages": (2, 2), "expect": ["Inv_C15"]}],
+        "gen": _gen_c15, "random": {"quick": 400, "thorough": 8000}, "max_stages": 4,
+        "nontrivial": _c04_nontrivial,
+        "rule": "A: every 2(3)-stage history of the C15 universes (priority, !del, !merge, lists), each replayed as written and again "
+                "(a) unchanged in the same process, (b) with the last document repeated, (c) with an empty mapping document inserted at "
+                "every position, (d) with the keys of every mapping reversed, (e) with !unsafe / !new put on every node in turn; "
+                "B: seeded random histories with a random permutation, insertion position and three random marker placements. "
+                "non-trivial = newer documents contain a deleting node; distinct by content",
+    },
 }
 
 CHECKS = {}
@@ -170,7 +206,7 @@ _BUILDER_NOTE = ("trusted: TLC 1.8, the YAML renderer and the projection of harn
                  "bounded universes (named in the evidence); direction B samples larger inputs, it does not enumerate them")
 ENGINES = [
     {"name": "builder-family", "path": "/verif/harness/builderfam.py",
-     "serves_properties": sorted(BUILDER.keys()),
+     "serves_properties": sorted(["C02", "C03", "C04", "C05", "C15"]),
      "kind_free_text": "TLC over spec/MC_Build.tla (AyBuild state machine: AddSource / FlattenFirst / MergeStage / Finish over "
                        "AyParse + AyMerge) checks the property invariants on every history of a bounded document universe and prints "
                        "each behaviour; every behaviour is replayed through the real Builder; recorded traces of seeded larger "
@@ -207,4 +243,19 @@ META["C04"] = {"engine": "builder-family", "design_ref": "DESIGN.md 5/C04",
             "mutation cfgs AbsLookup / FnTruthyWhenEmpty / PruneEqualPriority / ClearKeepsContent must be refuted.",
     "note": _BUILDER_NOTE + "; domain narrowed as DESIGN 5/C04 states (uniform priority below lists, remove-this-key idiom and "
             "vanishing !del containers excluded, function nodes as merge partners left to C13)"}
+META["C05"] = {"engine": "builder-family", "design_ref": "DESIGN.md 5/C05",
+    "technique": "TLC model checking of AyBuild (relational invariants) + metamorphic replay / trace validation against the library",
+    "text": "TLC checks on the merge specification that folding the documents wrapped under a key chain equals the wrapped fold, that a "
+            "sibling subtree under a fresh key changes nothing else, and the frame condition (paths the newer document does not reach "
+            "are unchanged), for every enumerated history x wrapping chain x sibling; in the library both histories are really built "
+            "and related to each other, disagreements and seeded random histories are judged by TLC on the logged outcomes; "
+            "mutation AbsLookup (absolute path used in a lookup) must be refuted.",
+    "note": _BUILDER_NOTE + "; !prev / cross-reference targets (absolute paths by definition) are not wrapped"}
+META["C15"] = {"engine": "builder-family", "design_ref": "DESIGN.md 5/C15",
+    "technique": "TLC model checking of AyBuild (relational invariants) + metamorphic replay / trace validation against the library",
+    "text": "TLC checks the five laws on the specification for every enumerated history (repeat last, insert {} at every position, "
+            "reverse every mapping's keys, mark every node !unsafe / !new); the library is driven along the base and every derived "
+            "history (and twice in one process for determinism) and TLC judges the logged outcomes; idempotence and key-order "
+            "freedom are up to key order, the others exact.",
+    "note": _BUILDER_NOTE + "; remove-this-key idiom (value-less / falsy / vanishing !del) excluded as the statement says"}
 NOT_APPLICABLE = {}
